@@ -7,7 +7,7 @@ import pathlib
 import sysconfig
 
 from .. import facts
-from ..astutil import (call_name, calls_in, const_str, dotted, kwarg, literal,
+from ..astutil import (func_params, call_name, calls_in, const_str, dotted, kwarg, literal,
                        norm, walk_no_nested)
 from ..cfg import CFG
 from ..guards import conditions_at
@@ -552,6 +552,48 @@ def r5_progress_and_enum(ctx):
     app = [c for c in calls_in(ge) if (call_name(c) or "").endswith(".append")]
     ok = len(app) == 1 and isinstance(app[0].args[0], (ast.List, ast.Tuple)) \
         and [norm(e) for e in app[0].args[0].elts][1].endswith(".enum")
+    # every file of the location is opened by itself: the loader inside
+    # the per-file loop is handed the loop variable, and the entry pairs
+    # that file with the enumeration of one of its curves
+    for lp_ in walk_no_nested(ge, False):
+        if not isinstance(lp_, ast.For) or not isinstance(
+                lp_.target, ast.Name):
+            continue
+        lds = [c for c in ast.walk(lp_) if isinstance(c, ast.Call) and (
+            call_name(c) or "").split(".")[-1] == "load_data"]
+        for c in lds:
+            a0 = c.args[0] if c.args else kwarg(c, "path")
+            ctx.check(a0 is not None and norm(a0) == lp_.target.id, c,
+                      "the per-file loop loads the file of this pass",
+                      f"get_data_paths_enum loads `{norm(a0) if a0 is not None else '?'}` "
+                      f"inside its loop over the files instead of the file "
+                      f"of this pass (`{lp_.target.id}`): for a folder every "
+                      "file is listed with the curves of the whole location")
+    # load_group: the progress callback is handed to ONE loader call (a
+    # call per file with the same callback restarts the progress at 0 for
+    # every file)
+    gm = ctx.repo.mod("group")
+    lg = gm.funcs.get("load_group")
+    if lg is None:
+        raise AnchorError("group.load_group missing")
+    ctx.analysed(lg)
+    n_cb = 0
+    for c in calls_in(lg):
+        cbk = kwarg(c, "callback")
+        if cbk is None or not isinstance(cbk, ast.Name) or \
+                cbk.id not in func_params(lg):
+            continue
+        n_cb += 1
+        lp_ = getattr(c, "_parent", None)
+        while lp_ is not None and not isinstance(
+                lp_, (ast.For, ast.While, ast.ListComp, ast.GeneratorExp)):
+            lp_ = getattr(lp_, "_parent", None)
+        ctx.check(lp_ is None, c, "the caller's progress callback is handed "
+                  "to one loader call",
+                  "load_group hands the caller's progress callback unchanged "
+                  "to a loader call inside a loop: the reported progress "
+                  "restarts for every file (values decrease)")
+    ctx.floor("loader calls of load_group that take the callback", n_cb, 1)
     ctx.check(ok, ge, "one [path, enum] entry per curve",
               "get_data_paths_enum does not list one [path, enum] per curve")
 
